@@ -80,6 +80,9 @@ def batch_program(seqs, bi: int) -> Tuple[defx.Program, Dict[str, Any]]:
             "module_ids": {"MOD_ONE": 12, f"MOD_B{bi}": 20 + bi % 70},
             "struct_defs": {n: {"fields": dict(f)} for n, f in NESTED.items()},
             "message_defs": {**{n: dict(v) for n, v in NMSG.items()}, "SIG_A": {"id": 5901, "fields": None},
+                             # user messages with ids the core definitions leave free below 100
+                             "LOW_ID_STATUS": {"id": 95, "fields": {"a": "int32", "b": "double"}}, "LOW_ID_SIG": {"id": 3, "fields": None},
+                             "LOW_ID_EDGE": {"id": 99, "fields": {"c": "char[8]"}},
                              "_RESERVED_": {"id": [5990, "5992 - 5994"]}}}
     parts = [{"struct_defs": {}, "message_defs": {}}, {"struct_defs": {}, "message_defs": {}}, {"struct_defs": {}, "message_defs": {}}]
     meta = {}
